@@ -9,3 +9,6 @@ Open Scope N_scope.
 Definition tplcache_request_data_cached : bool := false.
 (* every utility function map is built from the variables of the request and reaches Execute *)
 Definition tplcache_funcmap_from_request : bool := true.
+(* configuration/template/loader.go: the template loader reports a failed fetch as an error, it
+   never hands invented content to pongo2 with a nil error *)
+Definition tplcache_failed_fetch_is_error : bool := true.
